@@ -218,6 +218,9 @@ def jobs(tier):
             if m is not None:
                 J.append(dict(harness=('c03', 'h_embed'), params=dict(N=N, mask=m)))
         J.append(dict(harness=('c03', 'h_rotation_map_acts_as_rotation'), params=dict(N=N)))
+        if N <= 2:
+            for how in ('rotate', 'masked_rotate', 'edit'):      # request the map, change it in place, request it again
+                J.append(dict(harness=('c02', 'h_rotation_map_history'), params=dict(N=N, how=how), timeout_s=300, cost=10))
         if N in (2, 3):
             for form in LAYOUTS[1:]:
                 for m in (None, [True] + [False] * (N - 1), [False] * (N - 1) + [True]) + (([True, False, True],) if N == 3 else ()):
